@@ -516,7 +516,7 @@ func (w *World) Queries(rng *rand.Rand, max int) []Query {
 	for _, r := range w.Recs {
 		typesSeen[r.Type] = true
 	}
-	std := []uint16{TA, TAAAA, TNS, TSOA, TMX, TTXT, TCNAME, TSRV, TPTR, TSVCB, THTTPS, 99}
+	std := []uint16{TA, TAAAA, TNS, TSOA, TMX, TTXT, TCNAME, TSRV, TPTR, TSVCB, THTTPS, 99, 43} // 43 = DS: answered from the parent side of a delegation
 	var qs []Query
 	for _, n := range names {
 		ts := append([]uint16{}, std[:2]...)
